@@ -48,12 +48,39 @@ def run(tier, seed, replay):
     n2, known, rp2 = report.classify(PID, v2, t2, lambda c, r: "%s violated by %s" % (c, json.dumps({k: v for k, v in r.items() if k != "post"})[:400]))
     if rp2:
         j = json.load(open(rp2)); h = j["violations"][0]["event"]["hist"]; j["driver_args"] = args + ["-only", str(h)]; json.dump(j, open(rp2, "w"), indent=1)
+    # ---- direction spec -> code: behaviours of the constructive life-cycle model replayed on the real chain ----
+    dm = vf.tlc_mc(PID, "DisputeSM_MC", workers=8, cfg="DisputeSM_MC_thorough.cfg" if thorough else "DisputeSM_MC.cfg", timeout=2400, heap="8g")
+    if dm.inv_violated or dm.prop_violated:
+        raise vf.Inconclusive("design-level model DisputeSM_MC violates %s (model error or unreproduced candidate)" % (dm.inv_violated + dm.prop_violated))
+    n3 = 0; sm_cov = {}
+    if not replay:
+        sd = vf.fresh(os.path.join(wd, "sm")); vf.stage_specs(sd)
+        r = vf.tlc(sd, "DisputeSM_Sim", "num_native", workers=1, cfg="DisputeSM_Sim.cfg", simulate=(400 if thorough else 60), depth=31, seed=seed, timeout=900)
+        if r.error or r.inv_violated:
+            raise vf.Inconclusive("DisputeSM_Sim: %s" % (r.error or r.inv_violated))
+        cs = r.prints("CASE")
+        keys = sorted({json.dumps(c)[:-1] for c in cs})
+        maximal = [k for i, k in enumerate(keys) if not (i + 1 < len(keys) and keys[i + 1].startswith(k))]
+        behaviours = [json.loads(k + "]") for k in maximal][: (3000 if thorough else 400)]
+        if not behaviours:
+            raise vf.Inconclusive("DisputeSM_Sim produced no behaviours")
+        cp3 = os.path.join(sd, "cases.ndjson"); t3 = os.path.join(sd, "trace.ndjson"); s3 = os.path.join(sd, "stats.json")
+        open(cp3, "w").write("\n".join(json.dumps(c) for c in behaviours) + "\n")
+        vf.run_driver(vh, ["c12sm", "-cases", cp3, "-trace", t3, "-stats", s3, "-seed", str(seed), "-proj", "dispute,bank"], wd)
+        v3, st3, tr3, _ = vf.validate_trace(PID, "Dispute_Life_Trace", t3, group_key="hist", nshards=8)
+        n3, _, rp3 = report.classify(PID, v3, t3, lambda c, r: "%s violated by %s" % (c, json.dumps({k: v for k, v in r.items() if k != "post"})[:400]))
+        if rp3:
+            j = json.load(open(rp3)); j["model_behaviour"] = behaviours[j["violations"][0]["event"]["hist"] - 1]; json.dump(j, open(rp3, "w"), indent=1)
+        c3 = json.load(open(s3))
+        sm_cov = {"model_behaviours_replayed": len(behaviours), "model_replay_trace_lines": c3["lines"], "model_replay_events": c3["events"],
+                  "model_replay_accepted_events": c3["ok_events"], "model_replay_drift": dict(report.last_drift), "model_replay_states": st3}
     cov = {"states": mc.distinct + st1 + st2, "transitions": mc.generated + tr1 + tr2,
            "traces_validated_against_impl": a["cases"] + b["histories"], "samples": (a["samples"][:2] + [{k: v for k, v in s.items() if k != "post"} for s in b["samples"][:1]]) or [{"note": "none"}],
            "tally_cases_enumerated": len(allcases), "tally_cases_replayed": a["cases"], "tally_results": a["results"],
+           "design_level": [{"module": "DisputeSM_MC", "distinct_states": dm.distinct, "generated": dm.generated, "depth": dm.depth, "wall_s": round(dm.wall, 1)}], **sm_cov,
            "histories": b["histories"], "history_lines": b["lines"], "events": b["events"], "accepted_events": b["ok_events"], "known_findings_seen": known,
-           "explanation": "Dispute.tla: status graph, round fee doubling, vote guards, vote weights (team fixed, tips and stake as of the dispute block, selector vote removed from its reporter), TallyResult (two-stage quorum, strict maximum, invalid on ties). Tally_MC enumerates distributions (weights 0..2 per group and choice, group totals incl. zero, team absent/S/A/I, period over or not); a seeded sample (all ties and zero totals first) is installed in the real keeper by state injection and the real TallyVote is run; TLC compares result and totality. Recorded histories with scripted dispute stories (multi-round, votes by team/tippers/reporters/selectors/holders, deadlines at 1/2/3 days) are validated against Dispute_Life_Trace: status steps, no transition twice, vote guards, voter record weights from observed inputs, counts = sum of voter records, recorded result = formula."}
-    vf.write_evidence(PID, tier, seed, "model_checking", cov, time.time() - t0, n1 + n2,
+           "explanation": "DisputeSM.tla: the dispute life cycle as a constructive state machine (new dispute / further round / added fee / vote with immediate tally / begin-block expiry, tally and execution), one operator per critical section of x/dispute; DisputeSM_MC checks the design exhaustively over all interleavings of proposals, fees, votes and block gaps of 1..7 half-days (begin-block can never fail, nothing overdue after a begin-block, one open round per report, executed once and final, status graph, rounds chain); the model's behaviours (TLC -simulate) are replayed on real chains and every recorded step - of replays and of random histories - must match the model (MODEL clauses, reported as drift). Dispute.tla: status graph, round fee doubling, vote guards, vote weights (team fixed, tips and stake as of the dispute block, selector vote removed from its reporter), TallyResult (two-stage quorum, strict maximum, invalid on ties). Tally_MC enumerates distributions (weights 0..2 per group and choice, group totals incl. zero, team absent/S/A/I, period over or not); a seeded sample (all ties and zero totals first) is installed in the real keeper by state injection and the real TallyVote is run; TLC compares result and totality. Recorded histories with scripted dispute stories (multi-round, votes by team/tippers/reporters/selectors/holders, deadlines at 1/2/3 days) are validated against Dispute_Life_Trace: status steps, no transition twice, vote guards, voter record weights from observed inputs, counts = sum of voter records, recorded result = formula."}
+    vf.write_evidence(PID, tier, seed, "model_checking", cov, time.time() - t0, n1 + n2 + n3,
                       ["tally cases are installed by writing VoteCountsByGroup / BlockInfo / Votes / Voter directly (state injection), weights scaled to the chain's real supply",
                        "vote-weight inputs (tips at the dispute block, stake snapshots, liquid balance) are read from the keepers before each vote"])
-    return 1 if (n1 + n2) else 0
+    return 1 if (n1 + n2 + n3) else 0
